@@ -294,6 +294,9 @@ def work(ctx, seeds):
         rng = _r.Random(sd)
         d = lensgen.gen_lens(rng, allow_asphere=rng.random() < 0.25, allow_tilt=rng.random() < 0.2,
                              nsurf=rng.randint(1, 9), finite_object=rng.random() < 0.3)
+        if rng.random() < 0.35:      # per-field vignetting factors (symmetric in the field by definition)
+            for f in d['fields']:
+                f += [0.0, lensgen.dyadic(rng, 0, 0.5, 5), lensgen.dyadic(rng, 0, 0.5, 5)]
         for name, fn in (('mirror', t_mirror), ('dummy', t_dummy), ('wavelength', t_wavelength),
                          ('tilt', t_tilt_about_centre), ('scale', t_scale)):
             try:
